@@ -79,11 +79,26 @@ def site_side(m, c):
             if a[0] == "agg" and a[2].endswith("Side::Ask"):
                 return "Ask"
         return None
+    for a in c.args:      # a helper taking the side as an argument
+        if a[0] == "agg" and a[2].endswith("Side::Bid"):
+            return "Bid"
+        if a[0] == "agg" and a[2].endswith("Side::Ask"):
+            return "Ask"
     if c.target is not None:
         sides = {site_side(m, x) for x in m.q(c.target).calls("place_order")}
         if len(sides) == 1:
             return sides.pop()
     return None
+
+
+def site_kind(c):
+    """'market' for a direct placement without a price, else 'limit'"""
+    if c.name == "place_order":
+        pr = [a for a in c.args if a[0] == "agg" and "Option::" in a[2]]
+        if any(a[2].endswith("Option::Some") for a in pr):
+            return "limit"
+        return "market"
+    return "limit"
 
 
 def run(ctx):
@@ -92,7 +107,7 @@ def run(ctx):
     ctx.check(len(ups) == 2, "anchor", "updates", "-", "both momentum update implementations found", "found %d momentum update impls" % len(ups))
     abstractions = {}
     for f in ups:
-        q = m.q(f)
+        q = m.qi(f)       # private helpers (a signal helper, a side-parametric placement method ..) spliced in
         tag = f.impl_adt.split("::")[-1]
         # generator: the value stored into the (single) f64 state field
         fw = [w for w in q.writes() if w.root[0] == "param" and w.root[1] == 1 and len(w.names) == 1]
@@ -130,38 +145,57 @@ def run(ctx):
                   "last price update: %s" % "; ".join(w.text() for w in lw))
         ctx.check(not [a for a in mw.guards if not loop_exit(a)], "recurrence", tag + "|every-step", mw.loc(), "the momentum is stored every step")
         # placement sites
-        sites = [c for c in q.calls() if (c.name == "place_order" or (c.target is not None and m.q(c.target).calls("place_order") and c.target.crate.name == "bourse_de"
-                                                                      and "cancel" not in c.name)) and c.name not in ("cancel_live_orders", "cancel_live_orders_market")]
-        ctx.check(len(sites) == 4, "sites", tag + "|count", ctx.loc(f), "4 placement sites (limit buy/sell, market buy/sell)", "%d placement sites" % len(sites))
+        def placement_sites(qx):
+            live = qx.cfg.reach_from(0)
+            return [c for c in qx.calls() if c.b in live and (c.name == "place_order" or (c.target is not None and m.q(c.target).calls("place_order") and c.target.crate.name == "bourse_de"
+                                                                                          and "cancel" not in c.name)) and c.name not in ("cancel_live_orders", "cancel_live_orders_market")]
+        sites = placement_sites(q)
+        ctx.check(len(sites) >= 2, "sites", tag + "|count", ctx.loc(f), "%d placement sites" % len(sites), "%d placement sites" % len(sites))
+
+        def m_vs_zero(a):
+            """(set of signs of M for which the comparison holds) for an atom comparing the generator with 0.0, else None"""
+            if a[0] != "cmp":
+                return None
+            lhs, rhs = a[2], a[3]
+            if a[1] in ("gt", "lt", "ge", "le", "eq", "ne") and same_gen(lhs, M, G) and rhs[0] == "const" and const_float(rhs) == 0.0:
+                return {"gt": {1}, "lt": {-1}, "ge": {0, 1}, "le": {-1, 0}, "eq": {0}, "ne": {-1, 1}}[a[1]]
+            if a[1] in ("gt", "lt", "ge", "le") and same_gen(rhs, M, G) and lhs[0] == "const" and const_float(lhs) == 0.0:
+                return {"gt": {-1}, "lt": {1}, "ge": {-1, 0}, "le": {0, 1}}[a[1]]
+            return None
         probs = []
+        probs_case = {1: [], -1: [], 0: []}
         extra_conditions = {}
+        case_seq = {}
         for s in (1, -1, 0):
+            # the update body specialised to the sign of M: comparisons of M with 0 are decided, what only the other sign reaches
+            # is cut, values joined over the sign (a side chosen once, |M| taken once) collapse to this sign's alternative
+            def decide(a, _s=s):
+                need = m_vs_zero(a)
+                return None if need is None else (_s in need)
+            qs = m.case_view(q, decide)
             feas = []
-            for c in sites:
-                ok_site = c.b in q.cfg.reach_from(0)      # (a site behind a constant-false condition is not a site)
+            for c in placement_sites(qs):
+                ok_site = True
                 for a in c.guards:
                     if a[0] != "cmp":
                         if not loop_exit(a) and not (a[0] == "variant" and a[2] == ("Some",)):
-                            extra_conditions.setdefault(c.b, (c, []))[1].append(a)
+                            extra_conditions.setdefault(c.loc(), (c, []))[1].append(a)
                         continue
                     lhs, rhs = a[2], a[3]
                     # draw < P
                     if a[1] == "lt" and lhs[0] == "call" and lhs[4] == "gen":
                         probs.append((c, rhs))
+                        probs_case[s].append((c, rhs))
                         if 1 not in sign(rhs, G, s):
                             ok_site = False
-                    elif a[1] in ("gt", "lt", "ge", "le", "eq", "ne") and same_gen(lhs, M, G) and rhs[0] == "const" and const_float(rhs) == 0.0:
-                        need = {"gt": {1}, "lt": {-1}, "ge": {0, 1}, "le": {-1, 0}, "eq": {0}, "ne": {-1, 1}}[a[1]]
-                        if s not in need:
-                            ok_site = False
-                    elif a[1] in ("gt", "lt") and same_gen(rhs, M, G) and lhs[0] == "const" and const_float(lhs) == 0.0:
-                        need = {"gt": {-1}, "lt": {1}}[a[1]]
-                        if s not in need:
+                    elif m_vs_zero(a) is not None:
+                        if s not in m_vs_zero(a):
                             ok_site = False
                 if ok_site:
                     feas.append(c)
             sides = [site_side(m, c) for c in feas]
-            kinds = sorted({("market" if c.name == "place_order" else "limit") for c in feas})
+            kinds = sorted({site_kind(c) for c in feas})
+            case_seq[s] = [(site_kind(c), site_side(m, c)) for c in qs.ordered(feas)]
             label = {1: "M > 0", -1: "M < 0", 0: "M = 0"}[s]
             if s == 0:
                 ctx.check(not feas, "sign", "%s|zero" % tag, ctx.loc(f), "%s: no placement site is feasible (does nothing)" % label,
@@ -186,17 +220,28 @@ def run(ctx):
                     uniq.append(a)
             ctx.bad("sign", "%s|extra-condition|%s" % (tag, c.name), c.loc(), "placement %s additionally depends on [%s]: the propensity to trade is no longer a function of |M| alone" % (
                 c.name, " && ".join(render_atom(a)[:80] for a in uniq)))
-        # probabilities non-negative for either sign, with definite parity
-        seen = []
-        for c, P in probs:
-            if P in seen:
-                continue
-            seen.append(P)
-            sp, sn = sign(P, G, 1), sign(P, G, -1)
-            ctx.check(-1 not in sp and -1 not in sn and sp == sn, "parity", "%s|%s" % (tag, len(seen)), c.loc(),
-                      "probability %s is non-negative and has the same sign for +M and -M (even in M)" % render(P)[:90],
-                      "probability %s has sign %s for M > 0 but %s for M < 0" % (render(P)[:120], sorted(sp), sorted(sn)))
-        ctx.check(len(seen) == 2, "parity", tag + "|census", ctx.loc(f), "two probabilities compared with draws (limit, market)", "%d probability expressions" % len(seen))
+        # probabilities non-negative for either sign, with definite parity (judged per sign of M on that sign's view: a
+        # magnitude taken once - `let strength = if m < 0 { -m } else { m }` - is -M there and M here)
+        def distinct(lst):
+            out = []
+            for c_, P_ in lst:
+                if P_ not in [x[1] for x in out]:
+                    out.append((c_, P_))
+            return out
+        seen_pos, seen_neg = distinct(probs_case[1]), distinct(probs_case[-1])
+        sig = {1: [], -1: []}
+        for s_, lst in ((1, seen_pos), (-1, seen_neg)):
+            for k_, (c, P) in enumerate(lst):
+                sg = sign(P, G, s_)
+                sig[s_].append(sorted(sg))
+                ctx.check(-1 not in sg, "parity", "%s|%s|%d" % (tag, "pos" if s_ == 1 else "neg", k_ + 1), c.loc(),
+                          "probability %s is non-negative for M %s 0" % (render(P)[:90], ">" if s_ == 1 else "<"),
+                          "probability %s has sign %s for M %s 0" % (render(P)[:120], sorted(sg), ">" if s_ == 1 else "<"))
+        ctx.check(sorted(sig[1]) == sorted(sig[-1]), "parity", tag + "|even", ctx.loc(f), "the probabilities have the same signs for +M and -M (even in M)",
+                  "probabilities have signs %s for M > 0 but %s for M < 0" % (sig[1], sig[-1]))
+        ctx.check(len(seen_pos) == 2 and len(seen_neg) == 2, "parity", tag + "|census", ctx.loc(f), "two probabilities compared with draws (limit, market) for either sign of M",
+                  "%d / %d probability expressions for M > 0 / M < 0" % (len(seen_pos), len(seen_neg)))
+        seen = [P for (_c, P) in seen_pos]
         # first step (no last price yet): M = 0 and probability 0 – the only constant alternatives of M and of the probability
         consts_M = [a for a in (M[1] if M[0] == "phi" else (M,)) if a[0] == "const"]
         ctx.check(all(const_float(a) == 0.0 for a in consts_M) and len(consts_M) <= 1, "recurrence", tag + "|first-step", mw.loc(),
@@ -209,10 +254,9 @@ def run(ctx):
                           "first-step probability is %s" % [render(a) for a in cs])
         # the documented magnitude: |demand * tanh(scale * M)| / n   (market), times order_ratio (limit)
         def is_formula(e):
-            """abs(demand * tanh(scale*M) / n) in any association of the products"""
-            if not (e[0] == "call" and e[4] == "abs" and e[2]):
-                return False
-            x = e[2][0]
+            """abs(demand * tanh(scale*M) / n) in any association of the products (the abs may be omitted where the quotient
+            is non-negative for the sign at hand: the parity rule above has judged that)"""
+            x = e[2][0] if (e[0] == "call" and e[4] == "abs" and e[2]) else e
             if not (x[0] == "bin" and x[1] == "Div" and fld(x[3], "n")):
                 return False
             y = x[2]
@@ -224,7 +268,8 @@ def run(ctx):
             return False
         forms = []
         for P in seen:
-            forms += [x for x in walk(P) if x[0] == "call" and x[4] == "abs"]
+            fa = [x for x in walk(P) if x[0] == "call" and x[4] == "abs"]
+            forms += fa or [x for x in walk(P) if x[0] == "bin" and x[1] == "Div" and fld(x[3], "n")][:1]
         ctx.check(bool(forms) and all(is_formula(x) for x in forms), "parity", tag + "|formula", ctx.loc(f), "probability magnitude = |demand * tanh(scale * M) / n| as documented",
                   "probability magnitude is %s (documented: |demand*tanh(scale*M)|/n)" % [render(x)[:100] for x in forms])
         # limit probability = order_ratio * market probability
@@ -238,8 +283,8 @@ def run(ctx):
         ctx.check(okt, "parity", tag + "|tanh-arg", ctx.loc(f), "the probability is demand*tanh(scale*M)/n of the same M that chooses the direction",
                   "tanh is applied to %s" % [render(t_[2][-1]) for t_ in th])
         # mirror: buy and sell sites take the same arguments except the helper / side
-        lim = [c for c in sites if c.name != "place_order"]
-        mk = [c for c in sites if c.name == "place_order"]
+        lim = [c for c in sites if site_kind(c) == "limit"]
+        mk = [c for c in sites if site_kind(c) == "market"]
         if len(lim) == 2:
             ctx.check(lim[0].args == lim[1].args, "mirror", tag + "|limit", lim[0].loc(), "limit buy and sell helpers receive identical arguments", "limit buy/sell arguments differ")
         if len(mk) == 2:
@@ -249,7 +294,7 @@ def run(ctx):
         # per-trader: draws and placements inside the trader loop, no inner loop
         loops = q.body.loop_heads()
         ctx.check(len(loops) == 1 and all(q.cfg.in_loop(c.b) for c in sites), "sites", tag + "|per-trader", ctx.loc(f), "placements sit in the single per-trader loop")
-        abstractions[tag] = [(c.name.replace("_market", ""), site_side(m, c)) for c in q.ordered(sites)]
+        abstractions[tag] = [case_seq.get(1), case_seq.get(-1)]
     for f in ctx.prog.units():
         if f.name == "new" and f.crate.name == "bourse_de" and (f.impl_adt or "").split("::")[-1] in ("MomentumAgent", "MomentumMarketAgent"):
             r = m.q(f).ret()
@@ -260,7 +305,7 @@ def run(ctx):
                       "a new momentum agent starts with %s" % {k: render(fv[k]) for k in f64s})
     if len(abstractions) == 2:
         a, b = list(abstractions.values())
-        ctx.check(a == b, "siblings", "single-vs-market", "-", "single- and multi-asset momentum agents place through the same sequence of sites %s" % a,
+        ctx.check(a == b, "siblings", "single-vs-market", "-", "single- and multi-asset momentum agents place through the same sequence of (kind, side) sites for M > 0 and for M < 0: %s" % a,
                   "single/multi-asset site sequences differ: %s vs %s" % (a, b))
     # buy/sell helper mirror (consume the same draws)
     for suffix in ("", "_market"):
